@@ -709,13 +709,20 @@ func (r *run) scriptPhase() bool {
 		case "sync": // honest answers for latest-header requests and block requests below d.Below,
 			// until the node's chain has d.Len blocks and requests for d.Reqs are all pending
 			deadline := time.Now().Add(stallTimeout)
-			for {
+			// a node that keeps asking but never gets anywhere (e.g. it refuses the honest block) must not keep
+			// this phase alive for ever: the script is abandoned and the stable phase judges convergence
+			for answers, maxAnswers := 0, 60*(d.Len+len(d.Reqs)+4); ; {
 				r.settle()
 				r.mu.Lock()
 				r.flushCancelled()
 				if len(r.shadow) == d.Len && hasAll(r.pending, d.Reqs) {
 					r.mu.Unlock()
 					break
+				}
+				if answers > maxAnswers {
+					r.mu.Unlock()
+					r.note = "script: sync phase did not reach its target (answer budget)"
+					return false
 				}
 				var rq *request
 				for _, x := range r.pending {
@@ -727,6 +734,7 @@ func (r *run) scriptPhase() bool {
 				if rq != nil {
 					r.release(rq, r.honest(rq))
 					deadline = time.Now().Add(stallTimeout)
+					answers++
 				}
 				r.mu.Unlock()
 				if time.Now().After(deadline) {
